@@ -117,7 +117,7 @@ TypeCommand TasgridWrapper::hasCommand(std::string const &s){
             {"-loadconstructed", command_load_construction}, {"-lcp", command_load_construction},
             {"-summary", command_summary}, {"-s",   command_summary},
             {"-getcoefficients", command_getcoefficients}, {"-gc", command_getcoefficients},
-            {"-setcoefficients", command_setcoefficients}, {"-sc", command_setcoefficients},
+            {"-setcoefficients", command_setcoefficients},
             {"-getpoly",          command_getpoly},
             {"-getpointsindexes", command_getpointsindex},
             {"-getneededindexes", command_getneededindex}
